@@ -414,7 +414,10 @@ class Gen:
         if k < 0.92:
             return ("or", self.any_expr(d - 1), self.any_expr(d - 1))
         if k < 0.96 and self.dice:
-            return ("roll", self.any_expr(0), self.any_expr(0))
+            # the COUNT of a roll is kept small: these programs run with no budget configured (OpCountLimit 0 = unlimited,
+            # types.go), where `9223372036854775807d6` legitimately rolls 2^63-1 dice, i.e. never returns
+            cnt = r.choice([("int", r.randrange(0, 8)), ("str", r.choice(STRS)), ("null",), ("arr", [("int", 1)]), ("true",), ("neg", ("int", 1))])
+            return ("roll", cnt, self.any_expr(0))
         v = r.choice(VARS)
         self.types.pop(v, None)
         return ("assign", v, self.any_expr(d - 1))
